@@ -24,6 +24,7 @@ CONFIGS = {
                 LIB_CRATES, LIB_CRATES),
     'optimism': (['-p', 'revm', '--features', 'optimism'], LIB_CRATES, LIB_CRATES),
     'dev': (['-p', 'revm', '--features', 'dev serde'], LIB_CRATES, LIB_CRATES),
+    'serde-json': (['-p', 'revm', '--features', 'serde-json'], LIB_CRATES, LIB_CRATES),
     'workspace': (['--workspace'], LIB_CRATES + ['revme'], LIB_CRATES + ['revme']),
     'k256': (['-p', 'revm-precompile', '--no-default-features', '--features', 'std'],
              ['revm_precompile', 'revm_primitives'], ['revm_precompile']),
